@@ -60,7 +60,8 @@ class AsmExpr:
             # a fixed quarter of the cells (every position x operator keeps all term kinds on some side)
             keep = []
             for k, c in enumerate(out):
-                if c["op"] is None or (k % 4 == 0) or (c["left"].startswith("label") and c["right"] and c["right"].startswith("label")):
+                if c["op"] is None or (k % 4 == 0) or (c["left"].startswith("label") and c["right"] and c["right"].startswith("label")) or \
+                        (c["op"] in "*/" and c["right"].startswith("label") and c["pos"] in ("imm16", "mem")):
                     keep.append(c)
             out = keep
         return out
